@@ -186,12 +186,16 @@ OddProject(p) ==
        ~(Len(cs) > Len(PRE) /\ SubSeq(cs, 1, Len(PRE)) = PRE
          /\ \A i \in (Len(PRE) + 1)..Len(cs) : cs[i] # "/")
 
+\* (a listing that drops or invents entries, or ends a walk early, also breaks what the listing is
+\* FOR: "every later request observes a create" - C10 - and "ListTopicSubscriptions equals exactly
+\* the set of live subscriptions" - C11)
+ListTag(p) == IF p.op = "ListTopicSubs" THEN "C11,C13" ELSE "C10,C13"
 ListRetGuards(p, e, W, kinds) ==
     LET evs == {w \in W : w.k \in kinds} IN
     { G("C13", e.code \in {"OK", "INVALID_ARGUMENT", "NOT_FOUND"}),
       G("C13", e.code = "INVALID_ARGUMENT" => (p.size < 0 \/ (p.token # "" /\ p.token \notin DOMAIN tok) \/ OddProject(p))),
       G("C13", p.size < 0 => e.code = "INVALID_ARGUMENT"),
-      G("C13", e.code = "OK" =>
+      G(ListTag(p), e.code = "OK" =>
             \E w \in evs :
                /\ w.size = EffSize(p.size)
                /\ (p.token = "" => w.skip = 0)
@@ -572,6 +576,18 @@ EvGuards(e) ==
             (IF SiKnown(e) /\ (e.ids = <<>> \/ S[e.si].inbox # <<>>)
              THEN SubStateGuards(IF e.ids = <<>> THEN S[e.si] ELSE SubAfterPost(S[e.si], e.ids), e.st) ELSE {})
       [] e.k = "s.pull" ->
+            \* messages are handed out on behalf of SOMEBODY: a consumer whose call is pending, or one
+            \* that was abandoned so recently that the server may not know yet (since the last moment
+            \* of rest), or the push dispatcher - not a consumer that went away long ago (its wake-up
+            \* belongs to the consumers that still wait: C06; and its deliveries are leased to nobody)
+            (IF SiKnown(e) /\ e.out # <<>>
+             THEN { G("C06,C16",
+                      LET nm == S[e.si].name
+                          lastq == IF "lastq" \in DOMAIN hdr THEN hdr.lastq ELSE 0 IN
+                      \/ \E c \in DOMAIN pend : pend[c].e.op \in {"Pull", "StreamOpen"} /\ pend[c].e.sub = nm
+                      \/ \E g \in gone : g.op \in {"Pull", "StreamOpen"} /\ g.sub = nm /\ g.goneat > lastq
+                      \/ S[e.si].push # "") }
+             ELSE {}) \cup
             SubPull_G(e.si, e.max, e.out, e.st.backlog, e.t,
                       SiKnown(e) /\ \E g \in gone : g.op \in {"Pull", "StreamOpen"} /\ g.sub = S[e.si].name, Early) \cup
             (IF SiKnown(e)
@@ -715,7 +731,9 @@ AckedElsewhere(e) ==
 Retag16(e, gs) ==
     IF e.k \in {"s.post", "s.pull", "s.ack", "s.mod", "s.expire"} /\ SiKnown(e)
     THEN LET extra == (IF AbandonedNear(e.si) THEN ",C16" ELSE "") \o (IF Orphaned(e.si) THEN ",C11" ELSE "")
-                      \o (IF AckedElsewhere(e) THEN ",C02" ELSE "")
+                      \* (an acknowledge turn that loses anything else than what it acknowledged: "the
+                      \* acknowledgement touches nothing else")
+                      \o (IF AckedElsewhere(e) \/ e.k = "s.ack" THEN ",C02" ELSE "")
          IN IF extra = "" THEN gs
             ELSE {IF g[1] \in {"C01", "C04", "C01,C04", "C01,C04,C05"} THEN <<g[1] \o extra, g[2]>> ELSE g : g \in gs}
     ELSE gs
@@ -727,7 +745,9 @@ LightGuards(e) ==
     \* conservation on sizes (C01): nothing is lost or invented by a turn
     (IF e.k \in {"s.post", "s.pull", "s.ack", "s.mod", "s.expire"} /\ "nb" \in DOMAIN e.st /\ ~e.st.deleted /\ LightNb(e.si) >= 0
      THEN CASE e.k = "s.post" -> { G("C01", e.st.nb = LightNb(e.si) + Len(e.ids) /\ e.st.nl = LightNl(e.si)) }
-            [] e.k = "s.pull" -> { G("C01", e.st.nb = LightNb(e.si) - e.nout /\ e.st.nl = LightNl(e.si) + e.nout) }
+            \* (messages taken from the backlog but not handed out come back later, behind messages
+            \* published after them: C08 as well)
+            [] e.k = "s.pull" -> { G("C01,C08", e.st.nb = LightNb(e.si) - e.nout /\ e.st.nl = LightNl(e.si) + e.nout) }
             [] e.k = "s.ack" -> { G("C01", e.st.nb = LightNb(e.si) /\ e.st.nl <= LightNl(e.si)) }
             [] OTHER -> { G("C01", e.st.nb + e.st.nl = LightNb(e.si) + LightNl(e.si)) }
      ELSE {}) \cup
@@ -828,7 +848,7 @@ EvApply(e) ==
          ELSE IF e.k = "ret" /\ e.code = "OK" /\ pend[e.c].e.op = "Pull" THEN ContentAfter(e.body.msgs)
          ELSE IF e.k = "srecv" THEN ContentAfter(e.msgs)
          ELSE content
-    /\ gone' = IF e.k = "cancel" /\ e.c \in DOMAIN pend THEN gone \cup {pend[e.c].e} ELSE gone
+    /\ gone' = IF e.k = "cancel" /\ e.c \in DOMAIN pend THEN gone \cup {Put(pend[e.c].e, "goneat", l)} ELSE gone
     /\ httpLast' = IF e.k = "http" /\ SubsNamed(e.sub) # {} THEN Put(httpLast, <<NewestNamed(e.sub), e.m>>, e.code)
                    ELSE IF e.k = "httpans" THEN HttpAnswered(e) ELSE httpLast
     /\ delT' = IF e.k = "s.del1" THEN Put(delT, e.si, e.t) ELSE delT
@@ -879,7 +899,8 @@ TraceNext ==
             IN IF bad = {}
                THEN /\ IF Light THEN LightApply(e) ELSE (EvApply(e) /\ UNCHANGED <<lightNb, lightNl>>)
                     /\ skip' = skip
-                    /\ hdr' = IF e.k = "mark" /\ e.name = "drained" THEN Put(hdr, "drained", TRUE) ELSE hdr
+                    /\ hdr' = IF e.k = "mark" /\ e.name = "drained" THEN Put(hdr, "drained", TRUE)
+                              ELSE IF e.k = "quiet" THEN Put(hdr, "lastq", l) ELSE hdr
                     /\ ("DRIFT" \in Failed(gs) =>
                            PrintT(<<"DRIFT", ToJson([run |-> hdr.run, i |-> e.i, k |-> e.k, line |-> l])>>))
                     /\ stats' = [stats EXCEPT !.drift = @ + (IF "DRIFT" \in Failed(gs) THEN 1 ELSE 0),
